@@ -189,6 +189,11 @@ unsigned long le_quad(const byte *d)
 std::optional<Header> read_and_verify_header(DFS::FileAccess *f, std::string& error)
 {
   std::vector<byte> header_data = f->read(0, 19);
+  if (header_data.size() < 19)
+    {
+      error = "file is too short to contain an HxC MFM file header";
+      return std::nullopt;
+    }
   const byte* d = header_data.data();
   /* 0x00 - 0x06 is a magic string, including a terminating NUL. */
   const char expected_magic[7] = "HXCMFM";
@@ -316,6 +321,13 @@ HxcMfmFile::HxcMfmFile(const std::string& name, bool compressed, std::unique_ptr
       ss << "image file encodes more than 2 sides:  " << header->sides;
       throw UnsupportedHxcMfmFile(ss.str());
     }
+  if (header->sides == 0 || header->tracks == 0)
+    {
+      std::ostringstream ss;
+      ss << "image file has no data: " << header->tracks << " tracks, "
+	 << header->sides << " sides";
+      throw UnsupportedHxcMfmFile(ss.str());
+    }
   /* We can accept any number of tracks, don't care about the RPM or bit rate. */
   if (header->interface_type != 4)
     {
@@ -374,6 +386,13 @@ std::map<TrackDataKey, TrackData> HxcMfmFile::get_track_metadata()
        pos += 11)
     {
       std::vector<byte> raw_metadata = file_->read(pos, 11);
+      if (raw_metadata.size() < 11)
+	{
+	  std::ostringstream ss;
+	  ss << "the track list at file position " << pos
+	     << " is truncated or lacks an entry for the last track";
+	  throw InvalidHxcMfmFile(ss.str());
+	}
       const byte* raw = raw_metadata.data();
       const TrackDataKey key(le_word(raw), raw[2]);
       const TrackData td(le_quad(raw+3), le_quad(raw+7));
@@ -407,6 +426,17 @@ HxcMfmFile::read_all_sectors(unsigned int side,
       if (key.side_number != side)
 	continue;
 
+      // A track of a floppy disc holds a few kilobytes.  Don't let a
+      // corrupt size field make us allocate gigabytes.
+      constexpr unsigned long max_track_bytes = 1uL << 20;
+      if (td.mfmtracksize > max_track_bytes)
+	{
+	  std::ostringstream ss;
+	  ss << "image file contains metadata for track " << key.track_number
+	     << " stating that the data is " << td.mfmtracksize
+	     << " bytes long, which is impossibly large";
+	  throw InvalidHxcMfmFile(ss.str());
+	}
       std::vector<byte> track = file_->read(td.mfmtrackoffset, td.mfmtracksize);
       if (track.size() != td.mfmtracksize)
 	{
